@@ -33,6 +33,10 @@ func (rg *rootGeneratorSimple) generate() ([]*Node, error) {
 	for rg.scanner.Scan() {
 		currentNode, err := rg.nodeGenerator.generate(rg.scanner.Text(), rg.counter.next())
 		if err != nil {
+			if rerr := rg.scanner.Err(); rerr != nil {
+				// the reader failed: the last line may be truncated, report the reader's error
+				return nil, rerr
+			}
 			return nil, err
 		}
 		if currentNode == nil {
@@ -69,6 +73,10 @@ func (rg *rootGeneratorSimple) generateIter() func(yield func(*Node, error) bool
 		for rg.scanner.Scan() {
 			currentNode, err := rg.nodeGenerator.generate(rg.scanner.Text(), rg.counter.next())
 			if err != nil {
+				if rerr := rg.scanner.Err(); rerr != nil {
+					// the reader failed: the last line may be truncated, report the reader's error
+					err = rerr
+				}
 				yield(nil, err)
 				return
 			}
